@@ -280,7 +280,10 @@ fn msr_numbers(rep: &mut Report) {
         let (_, evs) = trapemu::trapped(|| unsafe { m.read() });
         evs.first().map(|e| e.n).unwrap_or(u32::MAX)
     };
-    let list: [(&str, u32, u32); 11] = [
+    use x86_64::instructions::segmentation::{Segment64, FS, GS};
+    let list: [(&str, u32, u32); 13] = [
+        ("<FS as Segment64>::BASE", probe(&<FS as Segment64>::BASE), 0xC000_0100),
+        ("<GS as Segment64>::BASE", probe(&<GS as Segment64>::BASE), 0xC000_0101),
         ("Efer::MSR", probe(&Efer::MSR), 0xC000_0080),
         ("Star::MSR", probe(&Star::MSR), 0xC000_0081),
         ("LStar::MSR", probe(&LStar::MSR), 0xC000_0082),
